@@ -416,7 +416,8 @@ def wait_summary(ctx, rule="R04.3"):
         elif "Ok{0: False}" in val:
             if stored or is_running is not False:
                 wrong.append("Ok(false) on a path that is not `not running`")
-        elif "from_residual" not in val:
+        elif "from_residual" not in val and not (val.startswith("Err{") and not stored):
+            # `?` and an explicit `Err(err) => return Err(err)` are the same propagated error
             wrong.append("unmodelled result %s" % val[:40])
     ctx.require(not wrong and len(ps) >= 3, rule, "wait-summary:ok-true-iff-finished", "wait() yields Ok(true) exactly on the paths that stored Finished and Ok(false) exactly when not running",
                 f.loc(f.line), detail=str(sorted(set(wrong))))
@@ -1287,7 +1288,7 @@ def send_order(ctx, rule="R10.2"):
     cfg = CFG(s)
     sends = [(bi, t) for bi, t in s.calls() if t.callee.is_("PrioritySender::send")]
     preps = [(bi, t) for bi, t in s.calls() if t.callee.is_("Job::prepare_control")]
-    ctx.floor(rule, "PrioritySender::send sites in send_controls", len(sends), 2)
+    ctx.floor(rule, "PrioritySender::send sites in send_controls", len(sends), 1)   # the single-control case may be the shortest batch of the one loop
     for bi, t in sends:
         pr = origins(s, t.args[2])
         ctx.require(all(a.kind == "arg" and a.data == 3 for a in pr) and pr, rule, "same-priority:%d" % sends.index((bi, t)),
